@@ -336,7 +336,7 @@ pub fn audit_source(src: &str, field: &Field, case: &Value, params_vary: bool) -
 // ---------------------------------------------------------------------------------------------
 // Operator table
 
-pub const OPERANDS: [&str; 20] = [
+pub const OPERANDS: [&str; 22] = [
     "3", "n", "k", "in", "in2", "in * in", "in * in * in2", "c.out", "arr[0]", "arr[n]", "la[0]", "seven()", "inc(in)", "cube(in)",
     // elements selected by a signal: a table of constants, an array of signals
     "lc[in]", "arr[in]",
@@ -346,6 +346,8 @@ pub const OPERANDS: [&str; 20] = [
     "lc2[0][in]", "lc2[in][1]",
     // an index whose own degree the analysis cannot bound (a call on a signal)
     "lc[inc(in)]",
+    // calls with two arguments, constant first / signal first
+    "mulf(2, in)", "mulf(in, 2)",
 ];
 pub const SMALL_OPERANDS: [&str; 5] = ["3", "n", "in", "in2", "in * in"];
 pub const INFIX: [&str; 20] = [
@@ -497,7 +499,7 @@ pub fn merge_def(skel: &[Sk], atoms: &[usize], conds: &[usize]) -> Def {
 pub fn run(run: &Run) {
     run.set_rule(
         "operator table: `out <-- E` in a template (signals/ports = indeterminates) and `return E` in a \
-         function (parameters = indeterminates) for E = A op B, op A, C ? A : B over 20 operand classes \
+         function (parameters = indeterminates) for E = A op B, op A, C ? A : B over 22 operand classes \
          {literal, parameter, local constant, input signals, in*in, in*in*in2, component port, signal \
          array element with constant/parameter/signal index, local array element, constant tables (one and two dimensions) indexed by a signal, signal assigned a constant, calls with constant / \
          signal arguments} and (thorough) depth-2 combinations over 5 classes; merging sweep: \
